@@ -233,11 +233,12 @@ impl<T: Serialize> Serialize for RcRecursive<T> {
         ts.end()
     }
 }
-impl<T: Serialize> Serialize for ArcRecursive<T> {
+/// Value field of a strong `ArcRecursive`: the mutex is locked only if the serializer really
+/// writes the value (first sight of the pointer), never for an occurrence that becomes an alias.
+struct ArcRecursiveValue<'a, T>(&'a Arc<Mutex<Option<T>>>);
+
+impl<T: Serialize> Serialize for ArcRecursiveValue<'_, T> {
     fn serialize<S: Serializer>(&self, s: S) -> std::result::Result<S::Ok, S::Error> {
-        let mut ts = s.serialize_tuple_struct(NAME_TUPLE_ANCHOR, 2)?;
-        let ptr = Arc::as_ptr(&self.0) as usize;
-        ts.serialize_field(&ptr)?;
         let guard = self
             .0
             .lock()
@@ -245,7 +246,18 @@ impl<T: Serialize> Serialize for ArcRecursive<T> {
         let value = guard
             .as_ref()
             .ok_or_else(|| ser::Error::custom("recursive Arc anchor not initialized"))?;
-        ts.serialize_field(value)?;
+        value.serialize(s)
+    }
+}
+
+impl<T: Serialize> Serialize for ArcRecursive<T> {
+    fn serialize<S: Serializer>(&self, s: S) -> std::result::Result<S::Ok, S::Error> {
+        let mut ts = s.serialize_tuple_struct(NAME_TUPLE_ANCHOR, 2)?;
+        let ptr = Arc::as_ptr(&self.0) as usize;
+        ts.serialize_field(&ptr)?;
+        // Do not lock here: this occurrence may be an alias of a cell that an enclosing
+        // call of this thread is still writing (and holds locked).
+        ts.serialize_field(&ArcRecursiveValue(&self.0))?;
         ts.end()
     }
 }
